@@ -78,7 +78,22 @@ def master_spec(rng):
     return "P:%s:%s:0:0:0:none" % (hx(k.to_bytes(32, "big")), hx(chain))
 
 
+def _deep_masters(rng, tier):
+    """BIP85 on a master key that is itself deep in a tree: the application paths (3, 4 or 5 levels) then end at
+    depth 253, 254, 255 and 256+ — the derived node is only used for its private key, every depth is legal"""
+    for depth in ([250, 251, 252] if tier == "quick" else [248, 249, 250, 251, 252, 253, 254, 255]):
+        k = rng.randrange(1, N)
+        spec = "P:%s:%s:%d:%d:0:%s" % (hx(k.to_bytes(32, "big")), hx(bytes(rng.getrandbits(8) for _ in range(32))), depth,
+                                        rng.getrandbits(32), "0a0b0c0d")
+        yield "bip85 %s mnemonic 12 0 -" % spec, "deep-master"
+        yield "bip85 %s hex 32 1 -" % spec, "deep-master"
+        yield "bip85 %s pwd 21 0 -" % spec, "deep-master"
+        yield "bip85 %s wif 0 2 -" % spec, "deep-master"
+        yield "bip85 %s xprv 0 0 -" % spec, "deep-master"
+
+
 def _cases_core(rng, tier):
+    yield from _deep_masters(rng, tier)
     masters = [master_spec(rng) for _ in range(2 if tier == "quick" else 40)]
     good_idx = [0, 1, H - 1]
     bad_idx = [-1, -2, -H, H, H + 1, 2 ** 32, 2 ** 32 - 1]
